@@ -147,6 +147,18 @@ func RTWorkload(c *Ctx, sh *Shape, sc RTScale, f func(cs *RTCase)) {
 				f(&RTCase{ID: id, Shape: sh, Gen: GenRuns, Recs: recs, Partition: []int{len(recs)}, Page: 100000, Codec: codec})
 			}
 		}
+		// one page body of more than 1 MiB (large values)
+		if sc.Big > 0 && sh.Name == "p8" {
+			id := fmt.Sprintf("%s/xlpage", pre)
+			if c.Take(id) {
+				rng := Rng(c.Seed, id)
+				var recs []*dremel.Tree
+				for i := 0; i < 26; i++ {
+					recs = append(recs, genTree(s, rngChooser{rng}, bigStrings{rng}, lensSmall))
+				}
+				f(&RTCase{ID: id, Shape: sh, Gen: GenHuge, Recs: recs, Partition: []int{20, 6}, Page: 1000, Codec: codec})
+			}
+		}
 		// pages whose fixed-width bodies are exactly 2^k bytes (buffer / window boundaries)
 		if sc.Big > 0 && (sh.Name == "p1" || sh.Name == "p4") {
 			for _, page := range []int{1024, 4096, 8192} {
